@@ -669,4 +669,89 @@ mod tests {
 
         Ok(())
     }
+
+    #[test]
+    fn test_records_with_a_mapped_record_without_a_sequence()
+    -> Result<(), Box<dyn std::error::Error>> {
+        use std::num::NonZero;
+
+        use noodles_core::Position;
+        use sam::{
+            alignment::{
+                RecordBuf,
+                io::Write as _,
+                record::{
+                    Flags, MappingQuality,
+                    cigar::{Op, op::Kind},
+                },
+                record_buf::Cigar,
+            },
+            header::record::value::{Map, map::ReferenceSequence},
+        };
+
+        let reference_sequence_repository = fasta::Repository::new(vec![fasta::Record::new(
+            fasta::record::Definition::new("sq0", None),
+            fasta::record::Sequence::from(b"ACGTACGT".to_vec()),
+        )]);
+
+        let header = sam::Header::builder()
+            .add_reference_sequence(
+                "sq0",
+                Map::<ReferenceSequence>::new(const { NonZero::new(8).unwrap() }),
+            )
+            .build();
+
+        let cigar: Cigar = [
+            Op::new(Kind::SoftClip, 2),
+            Op::new(Kind::Match, 2),
+            Op::new(Kind::Insertion, 1),
+            Op::new(Kind::Match, 1),
+            Op::new(Kind::Deletion, 2),
+            Op::new(Kind::Match, 1),
+        ]
+        .into_iter()
+        .collect();
+
+        let records = [RecordBuf::builder()
+            .set_flags(Flags::empty())
+            .set_reference_sequence_id(0)
+            .set_alignment_start(Position::try_from(2)?)
+            .set_mapping_quality(MappingQuality::new(13).unwrap())
+            .set_cigar(cigar)
+            .build()];
+
+        let mut writer = crate::io::writer::Builder::default()
+            .set_reference_sequence_repository(reference_sequence_repository.clone())
+            .build_from_writer(Vec::new());
+
+        writer.write_header(&header)?;
+
+        for record in &records {
+            writer.write_alignment_record(&header, record)?;
+        }
+
+        writer.try_finish(&header)?;
+        let src = writer.get_ref().clone();
+
+        let mut reader = Builder::default()
+            .set_reference_sequence_repository(reference_sequence_repository)
+            .build_from_reader(&src[..]);
+
+        let header = reader.read_header()?;
+
+        let actual: Vec<_> = reader
+            .records(&header)
+            .map(|result| {
+                result.and_then(|record| {
+                    let mut buf = RecordBuf::try_from_alignment_record(&header, &record)?;
+                    buf.name_mut().take();
+                    Ok(buf)
+                })
+            })
+            .collect::<io::Result<_>>()?;
+
+        assert_eq!(actual, records);
+
+        Ok(())
+    }
 }
